@@ -87,7 +87,7 @@ def c01() -> int:
     quick = tier() == "quick"
     base = 4096 * seed()
     cap = 160 if quick else 1024
-    small = ["S1", "S2", "S3"]
+    small = ["S1", "S2", "S3", "S2t"]
     big = ["S6"] if quick else ["S5", "S6"]
     big_seeds = 24 if quick else 96
     outdir = scratch_dir("hivemc_ord_")
@@ -111,6 +111,7 @@ def c01() -> int:
             "S1": ["multi_fleet_vehicle_dispatched", "two_vehicles_reach_same_target_same_step"],
             "S2": ["plug_ranking_tied", "station_search_tied", "two_vehicles_reach_same_target_same_step", "competing_instructions_same_target_same_step"],
             "S3": ["competing_instructions_same_target_same_step"],
+            "S2t": ["two_vehicles_reach_same_target_same_step", "queued_vehicles_share_enqueue_time"],
         }
         for sc, cells in need.items():
             for cell in cells:
